@@ -5,7 +5,7 @@ n="$1"; wt=/tmp/seeds/$n; out=/tmp/seeds/$n.out
 cd "$wt" || exit 9
 git checkout -q -- . ; git apply "$out/patch.diff" || { echo "PATCH DOES NOT APPLY"; exit 9; }
 echo "--- files changed:"; git diff --stat | tail -3
-echo "--- tests with change:"; PYTHONPATH=$wt timeout 900 /venv/bin/python -m pytest -q -p no:cacheprovider tests/unit tests/functional -q 2>&1 | tail -2 | head -1
+echo "--- tests with change:"; PYTHONPATH=$wt timeout 900 /venv/bin/python -m pytest -q -p no:cacheprovider tests/unit tests/functional 2>&1 | grep -E "passed|failed|error" | tail -1
 echo "--- demo WITH change:"; (cd $out && PYTHONPATH=$wt timeout 180 /venv/bin/python demo.py >/tmp/seeds/$n.with.log 2>&1; echo "exit=$?"); tail -3 /tmp/seeds/$n.with.log
 git apply -R "$out/patch.diff"
 echo "--- demo WITHOUT change:"; (cd $out && PYTHONPATH=$wt timeout 180 /venv/bin/python demo.py >/tmp/seeds/$n.without.log 2>&1; echo "exit=$?"); tail -2 /tmp/seeds/$n.without.log
